@@ -492,6 +492,25 @@ func runGrid(c *core.Ctx) {
 		}
 	}
 	receivers(c, pgl, polys, detail)
+	// the same value, edited in place after it has answered queries (a vertex moved to another grid
+	// point, often outside the ring's previous box), is asked again: nothing the library may have
+	// kept from the earlier calls is allowed to show (a polygon is a plain value)
+	if _, isBox := pgl.(*geom.Bounds); !isBox && detail["storage"] == nil && r.Chance(0.35) {
+		pg := polys[r.Intn(len(polys))]
+		ring := pg[r.Intn(len(pg))]
+		if len(ring) > 0 {
+			i := r.Intn(len(ring))
+			old := ring[i]
+			ring[i] = gridPt(r)
+			if r.Bool() {
+				// to a corner region of the grid: beyond the ring's previous box more often than not
+				ring[i] = geom.Point{X: float64(r.IntRange(0, 1)*4 - 2), Y: float64(r.IntRange(0, 1)*4 - 2)}
+			}
+			c.Count("history.polygon_edited_in_place_between_queries")
+			d2 := map[string]interface{}{"polygonal": gen.Dump(pgl), "history": fmt.Sprintf("the same value answered %d queries before a vertex of one ring was moved in place from %v to %v", len(allGrid), old, ring[i])}
+			judgeAll(c, pgl, polys, allGrid, d2, tag+"-edited-in-place")
+		}
+	}
 }
 
 // receivers checks MultiPoint / LineString / MultiLineString / Polygon.Within:
